@@ -64,6 +64,11 @@ template <class A> static void spot(A& f, int lo, int hi, const char* name) {
   ++total; snprintf(g_cur, 256, "%s characteristic", rg); if (f.P() != P) { fail(std::string(g_cur) + " is " + std::to_string(f.P()) + ", expected " + std::to_string(P)); return; }
   UL xs[] = {1, 2, 4, 31, 1000003, 2147483647ul, 2147483659ul, 3000000019ul, P - 1, P - 2, P / 2, (UL)pr[0], (UL)pr[0] * pr.back(), 0};
   UL Q2 = (UL)pr[0] * pr[1];
+  for (UL a : xs) for (UL b : xs) { if (a >= P || b >= P) continue; total += 3;
+    snprintf(g_cur, 256, "%s add(%lu,%lu)", rg, a, b); if (f.add(a, b) != (a + b) % P) fail(std::string(g_cur) + " = " + std::to_string(f.add(a, b)));
+    snprintf(g_cur, 256, "%s subtract(%lu,%lu)", rg, a, b); if (f.sub(a, b) != (a + P - b) % P) fail(std::string(g_cur) + " = " + std::to_string(f.sub(a, b)));
+    snprintf(g_cur, 256, "%s multiply(%lu,%lu)", rg, a, b); if (f.mul(a, b) != (UL)((unsigned __int128)a * b % P)) fail(std::string(g_cur) + " = " + std::to_string(f.mul(a, b))); }
+  for (long e : {-2147483647L - 1, -2147483647L, -1L, 2147483647L, 4294967295L, -4294967296L, 9223372036854775807L}) { ++total; snprintf(g_cur, 256, "%s convert(%ld,0)", rg, e); long m = e % (long)P; if (m < 0) m += P; if (f.conv(e) != (UL)m) fail(std::string(g_cur) + " = " + std::to_string(f.conv(e)) + ", residue is " + std::to_string(m)); }
   for (UL x : xs) { if (x >= P) continue;
     ++total; snprintf(g_cur, 256, "%s get_inverse(%lu,0)", rg, x); UL v = f.inv(x); bool ok = v < P; for (int q : pr) { if (x % q != 0) { if ((x % q) * (v % q) % q != 1) ok = false; } else if (v % q != 0) ok = false; }
     if (!ok) fail(std::string(g_cur) + " = " + std::to_string(v) + ": not the inverse modulo every prime of the range not dividing the element");
